@@ -99,10 +99,10 @@ Fixpoint emit_chunks (first : bool) (id h w q : N) (chs : list (list N)) : list 
 (* ---------- identifiers (image.rs: kitty_image_id, kitty_placement_id, kitty_placement_to_pos) ---------- *)
 (* img.hash() % KITTY_MAX_ID + 1 *)
 Definition image_id (hash : N) : N := hash mod KITTY_MAX_ID + 1.
-(* index = row % DIM + (col % DIM) * DIM;  index % KITTY_MAX_ID + 1   (u64, no overflow: index < DIM^2) *)
+(* index = row % DIM + (col % DIM) * DIM;  index.min(KITTY_MAX_ID - 1) + 1   (u64, no overflow: index < DIM^2) *)
 Definition placement_index (pos : N * N) : N :=
   let (row, col) := pos in (row mod KITTY_MAX_DIM) + (col mod KITTY_MAX_DIM) * KITTY_MAX_DIM.
-Definition placement_id (pos : N * N) : N := placement_index pos mod KITTY_MAX_ID + 1.
+Definition placement_id (pos : N * N) : N := N.min (placement_index pos) (KITTY_MAX_ID - 1) + 1.
 (* index = placement_id.saturating_sub(1); Position { row: index % DIM, col: index / DIM } *)
 Definition placement_to_pos (pid : N) : N * N :=
   let index := pid - 1 in (index mod KITTY_MAX_DIM, index / KITTY_MAX_DIM).
